@@ -283,6 +283,20 @@ func c13Random(rr *prng.R, r *fw.Rec) {
 			tree = &jast.Path{Steps: []jast.Node{srt(srt(&jast.Var{Name: ""})), id}}
 		}
 		modelCheck(r, tree, items, "order-by-on-context-array", judge.Opts{EmptyIsUndef: true}, nil)
+	case kind < 5 && rr.Intn(10) == 0:
+		// the keep-array marker written before the order-by, on a sequence of one
+		// item (and of several): the result stays an array
+		one := doc
+		if rr.Intn(3) > 0 {
+			one = O{"arr": items[:1]}
+		}
+		srt := sortProgram(terms).(*jast.Sort)
+		srt.X = &jast.Path{Steps: []jast.Node{&jast.Name{V: "arr"}}, Keep: true}
+		var tree jast.Node = srt
+		if rr.Bool() {
+			tree = &jast.Path{Steps: []jast.Node{srt, &jast.Name{V: "id"}}}
+		}
+		modelCheck(r, tree, one, "order-by-after-keep-array-marker", judge.Opts{EmptyIsUndef: true}, nil)
 	case kind < 5 && nterms > 1 && rr.Intn(4) == 0:
 		// an order-by applied to the result of another: the outer keys decide,
 		// items that are equal under them stay in the order the inner one gave
